@@ -262,6 +262,11 @@ func checkC12(r *Run) {
 	// a reply must find and release exactly its own request, or some other call never returns and the owner loop can
 	// block on a full reply channel: the tag-multiplexing rules of C05 are necessary conditions here too
 	checkC05(r)
+	// "no byte sequence from the peer crashes the client": the msize the peer answers steers the truncation arithmetic of
+	// every request written afterwards (slice bounds in maybeTruncate)
+	if mt := p.Fn("p9p:(*channel).maybeTruncate"); mt != nil {
+		c02Truncate(r, mt)
+	}
 
 	c12WriteFailure(r, p, owner)
 
